@@ -224,8 +224,10 @@ def db_inputs(case):
         rd = [d + 1 for d in rd]
         idg = [d + 1 for d in idg]
     unit = float(j) * (dt / 3600.)
-    rain_values = (0.0, s, 2 * s) if s > 0 else (0.0, 0.0, 2.5)
-    inc_values = (-unit, unit, 2 * unit) if unit > 0 else (-1.0, 0.0, 1.0)
+    # zero thresholds: {exactly at the threshold, light, heavy}; the light
+    # value lies below the defaults a missing argument would fall back to
+    rain_values = (0.0, s, 2 * s) if s > 0 else (0.0, 2.5, 6.0)
+    inc_values = (-unit, unit, 2 * unit) if unit > 0 else (0.0, 0.5, 10.0)
     rain = [rain_values[d] for d in rd]
     level = [float(case.get('base_level') or 0.0)]
     for d in idg:
